@@ -9,7 +9,7 @@
 (c) conformance of the READING with the running interpreter: the added str readings (split(), replace(c, '')) on
     sample strings, and every generated rule lambda / field parser against the real lambda of tealer's parser_rules
     (its `instructions` namespace replaced by a recorder of class name and constructor arguments) on sample argument
-    strings -- value or "an exception (ValueError / IndexError / KeyError)".
+    strings -- the value, or the CLASS of the exception raised (ValueError / IndexError / KeyError).
 
 Precondition: coq/ has been built (`make`).  Every coqc runs under `timeout`.  Exit status 0 iff every row has the
 expected verdict.
@@ -126,6 +126,14 @@ MUTATIONS = [
      lambda s: replace_once(s, '("callsub ", lambda x: instructions.Callsub(x))', '("callsub ", lambda x: instructions.Callsub(x.strip()))')),
     ("(33) parse_global_field: lookup of the stripped text", PGF,
      lambda s: replace_once(s, "return GLOBAL_FIELD_TXT_TO_OBJECT[field]()", "return GLOBAL_FIELD_TXT_TO_OBJECT[field.strip()]()")),
+    ("(34) handle_gtxnas: field parsed before the index (only the exception CLASS changes: IndexError before ValueError)", PI,
+     lambda s: in_function(s, "handle_gtxnas", "    idx = _parse_int(args[0])\n    tx_field = parse_transaction_field(args[1], True)\n", "    tx_field = parse_transaction_field(args[1], True)\n    idx = _parse_int(args[0])\n")),
+    ("(35) _is_int inverted at its definition", PI,
+     lambda s: replace_once(s, '_is_int: Callable[[str], bool] = lambda x: x.startswith("0x") or x.isdigit()', '_is_int: Callable[[str], bool] = lambda x: not (x.startswith("0x") or x.isdigit())')),
+    ("(36) _parse_int of parse_instruction.py: octal read in base 10", PI,
+     lambda s: in_function(s, "_parse_int", "return int(x, 8)", "return int(x, 10)")),
+    ("(37) proto: both immediates from one split, second index 2", PI,
+     lambda s: replace_once(s, f"lambda x: instructions.Proto({G2})", 'lambda x: instructions.Proto(_parse_int(x.split(" ")[0]), _parse_int(x.split(" ")[2]))')),
     ("(x1) arithmetic outside the reading (masking)", PI,
      lambda s: replace_once(s, '("dig ", lambda x: instructions.Dig(_parse_int(x)))', '("dig ", lambda x: instructions.Dig(_parse_int(x) & 255))')),
     ("(x2) str method outside the table (lstrip)", PI,
@@ -279,9 +287,9 @@ def conformance(work):
 
     def attempt(f, *a):
         try:
-            return "(Some " + val(f(*a)) + ")"
-        except (ValueError, IndexError, KeyError):
-            return "None"
+            return "(Val " + val(f(*a)) + ")"
+        except (ValueError, IndexError, KeyError) as e:  # the class itself, not a subclass
+            return f"(Raise {type(e).__name__})"
 
     groups = []
 
@@ -302,18 +310,20 @@ def conformance(work):
               "AssetTotal", "AppCreator", "AcctBalance", "AppParamsField", "MinTxnFee ", "ZeroAddress"]
     for flag in (False, True):
         table(f"parse_transaction_field(s, {flag})", [(coq_any(s), attempt(F.parse_transaction_field, s, flag)) for s in fields],
-              f"(fun s => parse_transaction_field_gen s {'true' if flag else 'false'})", "(opt_beq pval pval_beq)")
+              f"(fun s => parse_transaction_field_gen s {'true' if flag else 'false'})", "(pyx_beq pval pval_beq)")
     for nm, f in [("global", parse_global_field), ("asset_holding", parse_asset_holding_field), ("asset_params", parse_asset_params_field),
                   ("app_params", parse_app_params_field), ("acct_params", parse_acct_params_field)]:
-        table(f"parse_{nm}_field(s)", [(coq_any(s), attempt(f, s)) for s in fields], f"parse_{nm}_field_gen", "(opt_beq pval pval_beq)")
+        table(f"parse_{nm}_field(s)", [(coq_any(s), attempt(f, s)) for s in fields], f"parse_{nm}_field_gen", "(pyx_beq pval pval_beq)")
     ints = ["", "0", "00", "08", "0x", "0x1f", "0X1f", "12", "1_0", "-1", "+1", " 1", "0o7", "0x0x1", "0xg", "a", "0_7"]
-    items = []
-    for s in ints:
-        try:
-            items.append((coq_any(s), f"(Some ({F._parse_int(s)})%Z)"))
-        except ValueError:
-            items.append((coq_any(s), "None"))
-    table("parse_transaction_field._parse_int", items, "parse_int_tx_gen", "(opt_beq Z Z.eqb)")
+    for nm, f, coqf in [("parse_transaction_field._parse_int", F._parse_int, "parse_int_tx_gen"), ("parse_instruction._parse_int", P._parse_int, "parse_int_x_gen")]:
+        items = []
+        for s in ints:
+            try:
+                items.append((coq_any(s), f"(Val ({f(s)})%Z)"))
+            except ValueError as e:
+                items.append((coq_any(s), f"(Raise {type(e).__name__})"))
+        table(nm, items, coqf, "(pyx_beq Z Z.eqb)")
+    table("parse_instruction._is_int", [(coq_any(s), "(Val " + ("true" if P._is_int(s) else "false") + ")") for s in ints], "is_int_x_gen", "(pyx_beq bool Bool.eqb)")
     # --- every rule lambda of the running parser_rules against the generated one at the same position
     args = ["", "1", "0x1f", "017", "08", "-1", "1_0", "zz", "0x", "1 2", "1  2", "1 2 3", " 1", "1 ", "1\t2", "1\x1c2", "  1  0x2 03 ", "x 2", "2 x",
             "Fee", "Type Enum", "Accounts 1", "Accounts", "Accounts 0x2", "ApplicationArgs 1", "Applications9", "Nope",
@@ -321,7 +331,11 @@ def conformance(work):
             "GroupSize", "AssetBalance", "AssetTotal", "AppCreator", "AcctBalance", "a b c", "NoOp", "lbl", "Secp256k1"]
     for k, (key, f) in enumerate(P.parser_rules):
         items = [(coq_any(x), attempt(f, x)) for x in args]
-        table(f"rule {k} {key!r}", items, f"(rule_at {k} {coq_any(key)})", "(opt_beq pval pval_beq)")
+        table(f"rule {k} {key!r}", items, f"(rule_at {k} {coq_any(key)})", "(pyx_beq pval pval_beq)")
+
+    # negative control: the model's class for `gload zz` (IndexError) is NOT what python raises; the comparison must say so
+    gl = [k for k, (key, _) in enumerate(P.parser_rules) if key == "gload "][0]
+    table("negative control (a wrong expectation must be reported)", [(coq_any("zz"), "(Raise IndexError)")], f"(rule_at {gl} {coq_any('gload ')})", "(pyx_beq pval pval_beq)")
 
     L = [
         "From Coq Require Import String List NArith ZArith Bool Ascii Arith.",
@@ -342,8 +356,12 @@ def conformance(work):
         "  | _, _ => false",
         "  end.",
         "(* the generated lambda at position k, which must carry the key of the running rule k *)",
-        "Definition rule_at (k : nat) (key : string) (x : string) : py pval :=",
-        "  match nth_error shape_rules_gen k with Some (key', g) => if String.eqb key key' then g x else Some (VStr \"WRONG KEY\") | None => Some (VStr \"NO RULE\") end.",
+        "Definition exn_beq (a b : exn) : bool :=",
+        "  match a, b with ValueError, ValueError | IndexError, IndexError | KeyError, KeyError | OtherError, OtherError => true | _, _ => false end.",
+        "Definition pyx_beq (A : Type) (f : A -> A -> bool) (a b : pyx A) : bool :=",
+        "  match a, b with Val x, Val y => f x y | Raise d, Raise e => exn_beq d e | _, _ => false end.",
+        "Definition rule_at (k : nat) (key : string) (x : string) : pyx pval :=",
+        "  match nth_error shape_rules_gen k with Some (key', g) => if String.eqb key key' then g x else Val (VStr \"WRONG KEY\") | None => Val (VStr \"NO RULE\") end.",
         f"Definition nrules_ok := Nat.eqb (List.length shape_rules_gen) {len(P.parser_rules)}.",
         "Eval vm_compute in (\"nrules\", nrules_ok).",
     ]
@@ -360,6 +378,11 @@ def conformance(work):
     nrule, nrule_ok, nsamples = 0, 0, 0
     for i, (name, _, n) in enumerate(groups):
         good = f'("group {i}", 0, [])' in flat
+        if name.startswith("negative control"):
+            good = f'("group {i}", 1, [' in flat
+            okall &= good
+            rows.append((name, n, "reported" if good else "NOT REPORTED"))
+            continue
         okall &= good
         if name.startswith("rule "):
             nrule += 1
@@ -446,7 +469,8 @@ def main():
         print(" | ".join(c.ljust(w) for c, w in zip(r, cw)))
         if k == 0:
             print("-+-".join("-" * w for w in cw))
-    print("\nRESULT:", "all mutations caught, clean source accepted, reading conforms on the samples" if ok else "FAILURE")
+    good_msg = "reading conforms on the samples (mutations not run)" if only_conf else "all mutations caught, clean source accepted, reading conforms on the samples"
+    print("\nRESULT:", good_msg if ok else "FAILURE")
     sys.exit(0 if ok else 1)
 
 
